@@ -163,6 +163,9 @@ func plExplore(t *testing.T, res *ev.Result, prop string, bound int, scs []*plSc
 		} else {
 			// heavy scenarios: every shard runs the root schedule, first-level subtrees are dealt out
 			e.Shard, e.NShard = shard, nshard
+			if scs[i].HeavyBound > 0 && scs[i].HeavyBound < bound {
+				e.Bound = scs[i].HeavyBound
+			}
 		}
 		e.Explore(sc)
 	}
@@ -184,6 +187,13 @@ func plReport(res *ev.Result, e *sched.Explorer, prop string) {
 	res.Extra["divergent_schedules"] = e.Stats.Divergent
 	res.Extra["replay_retries"] = e.Stats.Retries
 	res.Extra["step_capped"] = e.Stats.StepCapped
+	heavy := map[string]int64{}
+	for k, v := range e.Stats.PerScenario {
+		if !strings.HasPrefix(k, "script:") {
+			heavy[k] = v
+		}
+	}
+	res.Extra["executions_per_scenario"] = fmt.Sprint(heavy)
 	n := 0
 	for k, v := range e.Stats.Outcomes {
 		res.Outcomes[k] += v
@@ -193,9 +203,7 @@ func plReport(res *ev.Result, e *sched.Explorer, prop string) {
 		n++
 	}
 	for _, f := range e.Found {
-		if !strings.HasPrefix(f.Sig, prop+"/") {
-			continue
-		}
+		// a violation of a neighbouring property's oracle found in this family is reported too (its signature keeps its own prefix)
 		res.Violate(f.Sig, fmt.Sprintf("scenario %s choices %v (reproduced %d/5)\nschedule: %v\n%s", f.Scenario, f.Choices, f.Reproduced, f.Trace, f.Detail), f)
 	}
 }
@@ -314,6 +322,7 @@ func TestVerifC01Stream(t *testing.T) {
 		plSharedScenario("shared:tick-mix", []plPack{pkIns(1000), pkTick(1010), pkDel(1020)}, []plPack{pkTick(1001), pkIns(1011)}, 1),
 		plShardedScenario("sharded:2-drop", 2, func(i int) []plPack { return []plPack{pkIns(int64(1000 + i)), pkDropColl(1020)} }),
 	)
+	scs = append(scs, plPlacementScenarios(ev.Thorough())...)
 	// partition registered while messages arrive; downstream learns the partition only through the create event
 	{
 		c := mkColl(101, "c1", []string{"src-dml_0"}, []string{"tgt-dml_0"})
@@ -333,4 +342,103 @@ func TestVerifC01Stream(t *testing.T) {
 	}
 	res.Rule = fmt.Sprintf("sched engine over the real replicateChannelManager fed by fakemq: (a) every single-stream script of <= %d packs over %d pack letters (insert, delete, insert+delete / two inserts at equal time, unsorted mixed pack, tick-only, BeginTs=0, create-partition / create-collection / unsupported messages, named-partition data, drop partition, drop collection), (b) two collections multiplexed on one source and one downstream channel, one collection on two shards ending in a drop, partition registration racing message arrival with the downstream learning the partition through the create event, three streams over two channels; scheduling points: stream delivery (free), driver start (free), the three verif yield points in handlePack/innerHandleReplicateMsg, the barrier signal; all schedules within the deviation bound; oracle: emitted non-tick messages per stream = source messages minus create/unsupported, in source-time order with deletes first at equal time, payload fingerprints equal, packs in read order with the stream's labels, nothing twice, nothing unread; non-trivial = executions in which two goroutines interleaved inside the handler", n, len(plLetters))
 	plExplore(t, res, "C01", bound, scs, plCheck{props: "1"}, 150*time.Second)
+}
+
+// ------------------------------------------------------------------------------------------------
+// placement families (C02, also run by C01)
+
+func plPlacementScenarios(thorough bool) []*plScenario {
+	var out []*plScenario
+	data := func(i int) []plPack { return []plPack{pkIns(int64(1000 + i)), pkInsDelEq(int64(1010 + i))} }
+	// differently named channels
+	{
+		c := mkColl(101, "c1", []string{"src-dml_0", "src-dml_1"}, []string{"tgt-x_3", "tgt-y_7"})
+		for i, sh := range c.Shards {
+			sh.Script = data(i)
+		}
+		out = append(out, &plScenario{Name: "place:renamed", SrcN: 2, TgtN: 2, Colls: []*plColl{c}, Drivers: []plDriver{{Kind: "start", Coll: 0}}})
+	}
+	// downstream vchannel names that sort differently from the source's: pairing is by sorted order
+	{
+		c := mkColl(101, "c1", []string{"src-dml_0", "src-dml_1"}, []string{"tgt-dml_9", "tgt-dml_2"})
+		// mkColl pairs by index; the product pairs by sorted order, so describe the shards the way the product will pair them
+		c.Shards[0].TgtV, c.Shards[1].TgtV = c.Shards[1].TgtV, c.Shards[0].TgtV
+		c.Shards[0].TgtV = fmt.Sprintf("tgt-dml_2_%dv1", c.TgtID)
+		c.Shards[1].TgtV = fmt.Sprintf("tgt-dml_9_%dv0", c.TgtID)
+		for i, sh := range c.Shards {
+			sh.Script = data(i)
+		}
+		out = append(out, &plScenario{Name: "place:sorted-pairing", SrcN: 2, TgtN: 2, Colls: []*plColl{c}, Drivers: []plDriver{{Kind: "start", Coll: 0}}})
+		// the same with the source listing its vchannels in shard-index order that is not name order
+		c2 := mkColl(101, "c1", []string{"src-dml_5", "src-dml_3"}, []string{"tgt-dml_0", "tgt-dml_1"})
+		c2.Shards[0].TgtV = fmt.Sprintf("tgt-dml_1_%dv0", c2.TgtID) // src-dml_5 sorts second -> pairs with the second downstream name
+		c2.Shards[1].TgtV = fmt.Sprintf("tgt-dml_0_%dv1", c2.TgtID)
+		for i, sh := range c2.Shards {
+			sh.Script = data(i)
+		}
+		out = append(out, &plScenario{Name: "place:source-unsorted", SrcN: 2, TgtN: 2, Colls: []*plColl{c2}, Drivers: []plDriver{{Kind: "start", Coll: 0}}, MsgPosPChannel: true})
+	}
+	// two collections whose shards are placed crosswise: the second one is forwarded between handlers
+	{
+		// c1 pins source channel 0 -> downstream 0 and 1 -> 1; c2 lives on source 0 but downstream 1, c3 on source 1
+		// but downstream 0: their packs are read by one handler and forwarded to the other
+		c1 := mkColl(101, "c1", []string{"src-dml_0", "src-dml_1"}, []string{"tgt-dml_0", "tgt-dml_1"})
+		c2 := mkColl(102, "c2", []string{"src-dml_0"}, []string{"tgt-dml_1"})
+		c3 := mkColl(103, "c3", []string{"src-dml_1"}, []string{"tgt-dml_0"})
+		c1.Shards[0].Script = []plPack{pkIns(1000)}
+		c2.Shards[0].Script = []plPack{pkInsDelEq(1005)}
+		c3.Shards[0].Script = []plPack{pkDel(1006)}
+		cb := 1
+		if thorough {
+			cb = 2
+		}
+		out = append(out, &plScenario{Name: "place:crosswise", SrcN: 2, TgtN: 2, Colls: []*plColl{c1, c2, c3}, Drivers: []plDriver{{Kind: "start", Coll: 0}, {Kind: "start", Coll: 1}, {Kind: "start", Coll: 2}}, HeavyBound: cb, MsgPosPChannel: true})
+	}
+	// downstream partition id is learned only after the create-partition event has been applied
+	{
+		c := mkColl(101, "c1", []string{"src-dml_0"}, []string{"tgt-dml_0"})
+		withPartition(c, false)
+		c.Shards[0].Script = []plPack{pkInsPart(1000), pkIns(1010), pkInsPart(1020)}
+		out = append(out, &plScenario{Name: "place:lazy-partition", SrcN: 1, TgtN: 1, Colls: []*plColl{c},
+			Drivers: []plDriver{{Kind: "start", Coll: 0}, {Kind: "addpart", Coll: 0, Part: "p1", PartState: pb.PartitionState_PartitionCreated}}})
+	}
+	// downstream collection does not exist yet: created through the create-collection event
+	{
+		c := mkColl(101, "c1", []string{"src-dml_0"}, []string{"tgt-dml_4"})
+		c.TgtMissing = true
+		c.Shards[0].Script = []plPack{pkIns(1000), pkDel(1010)}
+		out = append(out, &plScenario{Name: "place:created-by-event", SrcN: 1, TgtN: 1, Colls: []*plColl{c}, Drivers: []plDriver{{Kind: "start", Coll: 0}}})
+	}
+	if thorough {
+		// more source than downstream channels: two source shards land on one downstream pchannel
+		c := mkColl(101, "c1", []string{"src-dml_0", "src-dml_1"}, []string{"tgt-dml_0", "tgt-dml_0"})
+		for i, sh := range c.Shards {
+			sh.Script = data(i)
+		}
+		out = append(out, &plScenario{Name: "place:2to1", SrcN: 2, TgtN: 1, Colls: []*plColl{c}, Drivers: []plDriver{{Kind: "start", Coll: 0}}})
+		// fewer source than downstream channels: two collections on one source pchannel go to two downstream pchannels
+		c1 := mkColl(101, "c1", []string{"src-dml_0"}, []string{"tgt-dml_0"})
+		c2 := mkColl(102, "c2", []string{"src-dml_0"}, []string{"tgt-dml_1"})
+		c1.Shards[0].Script, c2.Shards[0].Script = data(0), data(1)
+		out = append(out, &plScenario{Name: "place:1to2", SrcN: 1, TgtN: 2, Colls: []*plColl{c1, c2}, Drivers: []plDriver{{Kind: "start", Coll: 0}, {Kind: "start", Coll: 1}}})
+	}
+	return out
+}
+
+func TestVerifC02Routing(t *testing.T) {
+	res := ev.New("C02", "routing")
+	defer res.Write()
+	bound := 2
+	if ev.Thorough() {
+		bound = 3
+	}
+	scs := plPlacementScenarios(ev.Thorough())
+	scs = append(scs, plSharedScenario("shared:2x2", []plPack{pkIns(1000), pkInsDelEq(1010)}, []plPack{pkDel(1001), pkTwoIns(1011)}, 0))
+	one := 1
+	for _, sc := range plScriptScenarios(1, 0) {
+		sc.Bound = &one
+		scs = append(scs, sc)
+	}
+	res.Rule = "sched engine over the real channel manager: placements of source/downstream shards onto physical channels {renamed channels, downstream names sorting differently, two collections placed crosswise (forward path between handlers), downstream partition id learned through the create-partition event, downstream collection created through the create-collection event; thorough: 2:1 and 1:2 channel counts} plus every single-letter script; all start orders and schedules within the deviation bound; oracle per emitted message: downstream collection id, downstream partition id of the same-named partition, downstream vchannel paired by sorted order, arrival on the pchannel hosting that vchannel, every pack/message position naming that channel, source message id kept; non-trivial = executions with interleaving inside the handler"
+	plExplore(t, res, "C02", bound, scs, plCheck{props: "12"}, 150*time.Second)
 }
